@@ -531,9 +531,18 @@ func (db *SingleBucketBackend) ForceDeleteBucket(name string) error {
 		}
 	}
 
-	// Delete the bucket itself
-	if err := db.fs.RemoveAll("."); err != nil {
+	// Empty the bucket. The bucket is the root of the filesystem and cannot
+	// be deleted itself (DeleteBucket is not implemented): removing "." takes
+	// away the directory the backend lives in and leaves a MemMapFs in a state
+	// in which walking it never terminates.
+	entries, err := afero.ReadDir(db.fs, "")
+	if err != nil {
 		return err
+	}
+	for _, entry := range entries {
+		if err := db.fs.RemoveAll(entry.Name()); err != nil {
+			return err
+		}
 	}
 
 	return nil
